@@ -137,14 +137,14 @@ func readImport(r Reader, cat Catalog) (SharedSymbolTable, error) {
 			}
 		case "max_id":
 			if r.Type() == IntType {
-				if r.IsNull() {
-					return nil, fmt.Errorf("ion: max id is null")
-				}
 				i, err := r.Int64Value()
 				if err != nil {
 					return nil, err
 				}
-				maxID = *i
+				if i != nil {
+					// A null max_id is the same as an absent one: usable only with an exact catalog match.
+					maxID = *i
+				}
 			}
 		}
 	}
